@@ -55,6 +55,32 @@ def _single_assign(st):
     return None
 
 
+def _bool_lit(e):
+    e = strip(e) if isinstance(e, dict) else e
+    if isinstance(e, dict) and (e.get("k") == "lit" or e.get("k") == "zero") and e.get("ty") in (None, "bool"):
+        v = e.get("cv", e.get("v"))
+        if v in (True, False, 0, 1, "true", "false"):
+            return v in (True, 1, "true")
+    return None
+
+
+def _ret_choice(c, a, b, line):
+    """return c ? a : b, with boolean-literal arms folded into && / || (`if (!x) return false; return y;` is `return x && y;`)"""
+    neg = lambda x: {"k": "un", "op": "!", "e": x, "ty": "bool"}
+    la, lb = _bool_lit(a), _bool_lit(b)
+    if la is False and lb is None:
+        e = {"k": "bin", "op": "&&", "lhs": neg(c), "rhs": b, "ty": "bool"}
+    elif la is True and lb is None:
+        e = {"k": "bin", "op": "||", "lhs": c, "rhs": b, "ty": "bool"}
+    elif lb is False and la is None:
+        e = {"k": "bin", "op": "&&", "lhs": c, "rhs": a, "ty": "bool"}
+    elif lb is True and la is None:
+        e = {"k": "bin", "op": "||", "lhs": neg(c), "rhs": a, "ty": "bool"}
+    else:
+        e = {"k": "cond", "c": c, "t": a, "f": b, "l": line, "ty": (b or {}).get("ty") if isinstance(b, dict) else None}
+    return {"k": "ret", "l": line, "e": e}
+
+
 def _single_return(st):
     while isinstance(st, dict) and st.get("k") == "seq" and len(st.get("s", [])) == 1:
         st = st["s"][0]
@@ -83,8 +109,7 @@ def normalise_ite(node):
             g, r = ss[i], ss[i + 1]
             if (isinstance(g, dict) and g.get("k") == "if" and g.get("e") is None and g.get("init") is None and g.get("cvar") is None
                     and _single_return(g.get("t")) is not None and isinstance(r, dict) and r.get("k") == "ret" and r.get("e") is not None):
-                ss[i:i + 2] = [{"k": "ret", "l": g.get("l"), "e": {"k": "cond", "c": g["c"], "t": _single_return(g["t"])["e"], "f": r["e"], "l": g.get("l"),
-                                                                   "ty": (r["e"] or {}).get("ty")}}]
+                ss[i:i + 2] = [_ret_choice(g["c"], _single_return(g["t"])["e"], r["e"], g.get("l"))]
                 i = max(i - 1, 0)      # a chain of guards folds from the bottom up
                 continue
             i += 1
@@ -92,7 +117,7 @@ def normalise_ite(node):
         ra, rb = _single_return(node.get("t")), _single_return(node.get("e"))
         if ra is not None and rb is not None:
             # `if (c) return x; else return y;`  ==  `return c ? x : y;`
-            return {"k": "ret", "l": node.get("l"), "e": {"k": "cond", "c": node["c"], "t": ra["e"], "f": rb["e"], "l": node.get("l"), "ty": (ra["e"] or {}).get("ty")}}
+            return _ret_choice(node["c"], ra["e"], rb["e"], node.get("l"))
         a, b = _single_assign(node.get("t")), _single_assign(node.get("e"))
         if a is not None and b is not None and json.dumps(a["lhs"], sort_keys=True) == json.dumps(b["lhs"], sort_keys=True):
             asg = dict(a)
@@ -484,6 +509,15 @@ def stmt_paths(s, loop_iters=2):
                     out.append((p, "fall" if ex == "brk" else ex))
         return out
     if k == "ret":
+        e0 = strip(s.get("e")) if isinstance(s.get("e"), dict) else None
+        if isinstance(e0, dict) and e0.get("k") == "cond" and "cv" not in e0:
+            # `return c ? a : b;` returns a on the paths where c holds and b on the others (each path's ret event carries its own arm)
+            out = []
+            for p, t in bool_paths(e0["c"]):
+                arm = dict(s)
+                arm["e"] = e0["t"] if t else e0["f"]
+                out += [(p + q, ex) for q, ex in stmt_paths(arm, loop_iters)]
+            return out
         return [(p + [("ret", s)], "ret") for p in val_paths(s.get("e"))]
     if k == "break":
         return [([], "brk")]
